@@ -285,7 +285,7 @@ theorem Lost.deleteBranch {U : List Block} {c : Chain} (w : TreeWF U c) {path : 
     (s : Stored) (hs : alookup nx c.store = some s) (e : Err)
     (herr : commitTxs c.utxo (path.length + 1) (reward (path.length + 1)) s.trusted s.txs = .error e) :
     Lost U c.root c (deleteBranch c nx) := by
-  obtain ⟨b, hbU, hid, hbp, _, _, s', hs', hst⟩ := w.blk nx nxt hn hx
+  obtain ⟨b, hbU, hid, hbp, _, _, s', hs', hst⟩ := w.blkData hn hx (w.stored_has_data hn hs)
   rw [hs] at hs'; cases hs'
   have hinv : InvalidOnReplay U c.root b :=
     invalidOnReplay_on_path w hpo b (by rw [hbp, hpar]) s.trusted e (by rw [← hst]; exact herr)
